@@ -252,12 +252,14 @@ fn models(tier: Tier) -> Vec<Model> {
             v.extend(gen::m1(0).into_iter().step_by(13));
             v.extend(gen::m3(0).into_iter().step_by(41));
             v.extend(gen::m4(0).into_iter().step_by(17));
+            v.extend(gen::m5(0).into_iter().step_by(7));
         }
         Tier::Thorough => {
             v.extend(gen::m1(1).into_iter().step_by(11));
             v.extend(gen::m2(1).into_iter().step_by(997));
             v.extend(gen::m3(1).into_iter().step_by(13));
             v.extend(gen::m4(1).into_iter().step_by(5));
+            v.extend(gen::m5(1).into_iter().step_by(2));
         }
     }
     // literal variables are created unnamed-by-kind; proofs need integer names: keep models
@@ -284,7 +286,7 @@ impl Property for C06 {
         "exploration"
     }
     fn rule(&self, _tier: Tier) -> String {
-        "Strides of M1/M3/M4 (no literal variables) x solve kind {satisfy, minimise/maximise x0 with LinearSatUnsat and LinearUnsatSat} x proof kind {scaffold, full, full+hints} x {minimisation on, off} x 2 branchers; models are posted with named variables and one tag per constraint. Each produced (.drcp, .lits) pair is checked by an independent checker: every literal code is defined, ids increase, hints point backwards; every tagged inference follows from the single reference constraint with that tag by exhaustion over the declared domains; every untagged inference follows from one posted constraint, one earlier nogood or the domains alone (objective-improvement cuts of LinearSatUnsat are admitted iff they cut exactly at the value of a true solution); every nogood step is derived by reverse constraint propagation over {inferences since the previous nogood, all earlier nogoods, declared domains} (full proofs; the hinted steps only when hints are present) and is entailed by the reference solution set; UNSAT is preceded by the empty nogood and only concluded for models without solutions; an optimality conclusion is a true bound at the brute-force optimum. A case = one (model, kind, proof kind, configuration); non-trivial = a conclusion was written.".into()
+        "Strides of M1/M3/M4 (no literal variables) x solve kind {satisfy, minimise/maximise x0 with LinearSatUnsat and LinearUnsatSat} x proof kind {scaffold, full, full+hints} x {minimisation on, off} x 2 branchers; models are posted with named variables and one tag per constraint. Each produced (.drcp, .lits) pair is checked by an independent checker: every literal code is defined, ids increase, hints point backwards; every tagged inference follows from the single reference constraint with that tag by exhaustion over the declared domains; every untagged inference follows from one posted constraint (together with the root facts the proof has established as earlier unit nogoods), one earlier nogood or the domains alone (objective-improvement cuts of LinearSatUnsat are admitted iff they cut exactly at the value of a true solution); every nogood step is derived by reverse constraint propagation over {inferences since the previous nogood, all earlier nogoods, declared domains} (full proofs; the hinted steps only when hints are present) and is entailed by the reference solution set; UNSAT is preceded by the empty nogood and only concluded for models without solutions; an optimality conclusion is a true bound at the brute-force optimum. A case = one (model, kind, proof kind, configuration); non-trivial = a conclusion was written.".into()
     }
     fn assumptions(&self) -> Vec<String> {
         vec![
@@ -520,7 +522,19 @@ fn run_one(
                     }
                     None => {
                         // some single constraint, some earlier nogood, or the domains alone
-                        let by_constraint = (0..model.cons.len()).any(|k| ck.counterexample(1 << k, &prem, concl.as_ref()).is_none());
+                        // (clauses are preprocessed when posted: predicates that are true at the root
+                        // are dropped, so their propagations rest on the clause together with root
+                        // facts, which the proof contains as earlier unit nogoods)
+                        let mut prem_with_units = prem.clone();
+                        for (_, f) in &known {
+                            if let Known::Clause(ls) = f {
+                                if ls.len() == 1 {
+                                    prem_with_units.push(ls[0]);
+                                }
+                            }
+                        }
+                        let by_constraint =
+                            (0..model.cons.len()).any(|k| ck.counterexample(1 << k, &prem_with_units, concl.as_ref()).is_none());
                         let by_domains = ck.counterexample(0, &prem, concl.as_ref()).is_none();
                         let by_nogood = known.iter().any(|(_, f)| match f {
                             Known::Clause(ls) => !ck.table.iter().any(|(a, _)| {
@@ -585,7 +599,7 @@ fn run_one(
                     if !admitted {
                         cx.violation(
                             "untagged-inference-not-justified",
-                            format!("{t} (step {iid}) follows neither from a single posted constraint, nor from an earlier nogood, nor from the domains"),
+                            format!("{t} (step {iid}) follows neither from a single posted constraint and the earlier unit nogoods, nor from an earlier nogood, nor from the domains"),
                         );
                     }
                 }
